@@ -90,3 +90,46 @@ check(
     'Sharing of instance-stateless objects (Floor, Wall, MovingObstacle) is not counted as aliasing.',
     'DESIGN.md 3/C03',
 )
+check(
+    'C05',
+    'bounded exhaustive enumeration of labelled grids x poses x view areas x observation functions against a reference rigid transform',
+    'Labelled grids (every cell a distinct object, so "the object at world cell q" is unambiguous) of every shape '
+    'H,W in 1..4 (thorough 1..5, non-square included) with every subset of up to 1-3 opaque cells x every agent cell x '
+    '4 headings x 193 view areas (symmetric and not, plus the shipped 7x7 view) x the four observation functions: '
+    'every observation cell is Hidden or equal to the object at the world cell given by the reference transform, '
+    'out-of-grid cells are Hidden, shape/anchor/heading/held item as specified, fully_transparent shows every in-grid '
+    'cell; the stochastic function is run with two extreme scripted draws and real numpy seeds.',
+    'partially_occluded only with the agent on the bottom view row (documented precondition).',
+    'DESIGN.md 3/C05',
+)
+check(
+    'C06',
+    'complete enumeration of all Wall/Floor opacity patterns of small views and worlds; reference flood fill, monotonicity and replacement (non-interference) oracles',
+    'All 2^(h*w) opacity patterns of views up to 3x5/4x3 (thorough 4x5) for partially_occluded (every bottom-row '
+    'anchor) and raytracing (every origin): own cell visible, every visible cell linked to the agent by adjacent '
+    'transparent visible cells, opening a visible opaque cell never hides a visible cell. All Wall/Floor worlds 2x3, '
+    '3x2, 3x3, 2x4, 4x2, 1x5 x agent on every floor cell x headings x areas: the shown cells satisfy the chain law and '
+    'replacing any hidden / out-of-view world cell by any of 5 objects leaves the observation unchanged. Stochastic '
+    'variant: extreme scripted draws give exactly the deterministic set and the every-ray-lit set; numpy seeds lie between.',
+    'The u == 0.0 draw (measure zero) is not modelled; stochastic lower bound uses the library ray fan (verified by C19).',
+    'DESIGN.md 3/C06',
+)
+check(
+    'C07',
+    'bounded exhaustive enumeration of labelled grids x poses x areas x deterministic observation functions compared across all four world rotations (harness index arithmetic)',
+    'For every labelled grid (shapes 1..4 x 1..4, opaque subsets), pose, view area and deterministic observation '
+    'function, the observation of the world rotated by 1, 2 and 3 quarter turns (grid and pose rotated together by the '
+    "harness's own index formula, not by Grid.__mul__) equals the observation of the original.",
+    'Bounds as reported.',
+    'DESIGN.md 3/C07',
+)
+check(
+    'C19',
+    'complete enumeration of areas x origins x rays; exhaustive cache-history sequences',
+    'Every area of size 1..7 x 1..7 (thorough 1..9) at two offsets x every origin x every ray of the fan: starts at the '
+    'origin, stays inside, no repeats, 8-adjacent steps, ends on the border; the fan covers every cell; cached == '
+    'uncached after all query sequences up to length 4 over 5 colliding queries; unobstructed ray-traced visibility '
+    'is all-true; two computations agree.',
+    'Areas beyond the bound are not covered.',
+    'DESIGN.md 3/C19',
+)
